@@ -1,5 +1,7 @@
 SPECIFICATION Spec
 CONSTANTS
+  Den = 4
+  MaxMove = 4
   Ks <- QuickKs
   NMin = 2
   NMax = 3
